@@ -7,6 +7,7 @@
  D4b the name->slot table is rebuilt from scratch when the selection changes
  D5 one-sided fallback: probes of the first/second-derivative section sit in a try whose ConstraintException handler retries with a sign-flipped step or uses a one-sided formula
  D6 derivative slots are indexed by the position of the variable in the selection (the table built by setParametersToDerivate)
+ D7 (E7, fdiff.py) every difference formula is exact on low-degree polynomials at the points its values were actually taken
 """
 from .facts import kids, strip, walk, is_call, render, local_inits, AnalysisBroken
 from . import e1
@@ -17,8 +18,8 @@ EXPLANATION = ("Static analysis of structural clauses of C12 on AbstractNumerica
                "call updateDerivatives with what was set; D2 every variable-name local whose parameter is shifted for a probe flows into a restore from the unmodified argument (or the whole "
                "argument is restored) on every path to the normal exit; D3 each enable...(false) on the wrapped function is paired with enable...(flag) on every normal exit (a pointer that is "
                "null in every constructor of the class is exempt); D4 delegation guards; D4b selection table reset; D5 retry handlers flip the sign of the step / five-point handlers use "
-               "one-sided formulas and no explicit throw of the first section escapes a handler; D6 slot index = selection index. NOT decided: exactness on polynomials, convergence order, "
-               "values computed by cross derivatives.")
+               "one-sided formulas and no explicit throw of the first section escapes a handler; D6 slot index = selection index; D7 each difference formula, read with the points its values were taken at, is exact "
+               "on every polynomial of degree <= max(order, points-1) (mixed: total degree 2). NOT decided: convergence order, rounding.")
 
 AND = "bpp::AbstractNumericalDerivative"
 SCHEMES = ["bpp::TwoPointsNumericalDerivative", "bpp::ThreePointsNumericalDerivative", "bpp::FivePointsNumericalDerivative"]
@@ -54,10 +55,12 @@ def _d1(chk, fb):
             chk.refuted("D1", f.key, "forwards-same-arguments", f.loc(fw[0]), "forwards %s instead of its own arguments" % a_fw)
         ok_order = e1.before_in_function(cfg, fw[0], up[0]) and not e1.before_in_function(cfg, up[0], fw[0])
         ok_all, _ = e1.must_pass(cfg, {cfg.stmt_block(up[0])})
-        arg = render(f.args(up[0])[0])
+        arg = render(f.args(up[0])[0], local_inits(f))
         want = {f.params[0]["name"]} if name != "setParameterValue" else {"function_.getParameters().createSubList(%s)" % f.params[0]["name"]}
         if ok_order and ok_all and arg in want:
             chk.proved("D1", f.key, "forward-then-update", f.loc(up[0]), "function_->%s(...) then updateDerivatives(%s)" % (fwd, arg))
+        elif ok_order and ok_all and not (arg in {p["name"] for p in f.params} or "createSubList" in arg or "getParameters" in arg):
+            chk.unknown("D1", f.key, "forward-then-update", f.loc(up[0]), "updateDerivatives is given '%s': not an expression this rule can compare with what was set" % arg[:80])
         else:
             chk.refuted("D1", f.key, "forward-then-update", f.loc(up[0]), "update is not 'forward, then updateDerivatives(%s)' on every path (got updateDerivatives(%s))" % (sorted(want)[0], arg))
     chk.floor("D1", "update entry points", n, 6)
@@ -94,7 +97,30 @@ def _d3(chk, fb):
         cfg = f.cfg
         for ptr, meth in (("function1_", "enableFirstOrderDerivatives"), ("function2_", "enableSecondOrderDerivatives")):
             acq = [c for c in f.calls() if c["callee"]["name"] == meth and "obj" in c and render(f.obj(c)) == ptr and f.args(c) and render(f.args(c)[0]) == "false"]
-            rel = [c for c in f.calls() if c["callee"]["name"] == meth and "obj" in c and render(f.obj(c)) == ptr and f.args(c) and render(f.args(c)[0]) != "false"]
+            rel0 = [c for c in f.calls() if c["callee"]["name"] == meth and "obj" in c and render(f.obj(c)) == ptr and f.args(c) and render(f.args(c)[0]) != "false"]
+            # a release written inside a local lambda happens where the lambda is called; a release made by a helper member
+            # ('if (ptr) ptr->enable(flag)' on every path of the helper) happens at the helper's call sites
+            rel, opaque = [], False
+            for c in rel0:
+                sites = e1.lift_to_call_sites(f, c)
+                if sites is None:
+                    opaque = True
+                else:
+                    rel.extend(sites)
+            for c in f.calls():
+                if "obj" in c and strip(f.obj(c))["k"] != "CXXThisExpr":
+                    continue
+                for t in fb.targets(c, static_type_only=True):
+                    if t.key == f.key or t.body is None or not fb.derives_from(t.cls or "", AND):
+                        continue
+                    inner = [x for x in t.calls() if x["callee"]["name"] == meth and "obj" in x and render(t.obj(x)) == ptr and t.args(x) and render(t.args(x)[0]) != "false"]
+                    if not inner:
+                        continue
+                    tcfg = t.cfg
+                    drop_t = {(b, s_) for b in tcfg.blocks for s_ in tcfg.succ[b] if any(tt == ptr and tr is False for tt, tr, _ in e1.edge_facts(tcfg, b, s_))}
+                    if e1.must_pass(_without_edges(tcfg, drop_t), {tcfg.stmt_block(x) for x in inner})[0]:
+                        rel.append(c)
+            acq = [a for a in acq if f.enclosing(a, ("LambdaExpr",)) is None]
             if not acq:
                 chk.proved("D3", f.key, "pairing:" + ptr, f.loc(), "never switched off")
                 continue
@@ -115,6 +141,9 @@ def _d3(chk, fb):
                 if not ok:
                     bad = (a, path)
                     break
+            if bad and opaque:
+                chk.unknown("D3", f.key, "pairing:" + ptr, f.loc(bad[0]), "a release sits in a lambda that is not bound to a local: where it runs is not followed")
+                continue
             if bad:
                 # name the offending exit
                 rets = [n for n in walk(f.body) if n["k"] == "ReturnStmt"]
@@ -127,6 +156,23 @@ def _d3(chk, fb):
                             witness={"blocks": bad[1], "input": "an objective value that is NaN or >= VERY_BIG at the evaluation point" if rets else "any update"})
             else:
                 chk.proved("D3", f.key, "pairing:" + ptr, f.loc(acq[0]), "every normal exit after the switch-off passes %s->%s(flag)" % (ptr, meth))
+
+
+def _helpers(fb, f):
+    """functions of the library called from f that take part in probing: free/static helpers and members of the numerical
+    derivative hierarchy, with a body, that call setParameters / setValue or catch ConstraintException (one level)"""
+    out = []
+    for c in f.calls():
+        for t in fb.targets(c, static_type_only=True):
+            if t.key == f.key or t.body is None or any(t is g for _, g in out):
+                continue
+            if t.cls and not fb.derives_from(t.cls, AND):
+                continue
+            if "Bpp/Numeric/Function/" not in t.relfile:
+                continue
+            if any(x["callee"]["name"] in ("setParameters", "setValue") for x in t.calls()) or any(x["k"] == "CXXCatchStmt" for x in walk(t.body)):
+                out.append((c, t))
+    return out
 
 
 def _name_sources(f, p_decl_id, site=None, arg=None):
@@ -159,9 +205,9 @@ def _d2(chk, fb):
                 probes.append((c, r))
             elif is_call(a) and a["callee"]["name"] == "createSubList" and render(f.obj(a)) == arg:
                 restores_one.append((c, render(f.args(a)[0])))
-        chk.floor("D2", "probe sites in " + cls, len(probes), 1)
-        # name locals perturbed: p[k].setValue(...) where p = parameters.createSubList(V)
-        shifted = {}      # name local -> first probe node
+        # shifts: (site in f, the local list, element index); a helper that receives the list by reference and shifts P[k] of its
+        # parameter shifts the caller's list at the call site
+        shifts = []
         for n in f.calls():
             if n["callee"]["name"] == "setValue" and "obj" in n:
                 o = strip(f.obj(n))
@@ -169,7 +215,28 @@ def _d2(chk, fb):
                     lst = strip(f.obj(o))
                     idx = strip(f.args(o)[0])
                     if lst["k"] == "DeclRefExpr" and idx["k"] == "IntegerLiteral":
-                        k = idx["val"]
+                        shifts.append((n, lst, idx["val"]))
+        for c, g in _helpers(fb, f):
+            pmap = {p["name"]: strip(f.args(c)[i]) for i, p in enumerate(g.params) if i < len(f.args(c)) and "ParameterList" in p.get("ty", "") and "&" in p.get("ty", "") and not p["ty"].startswith("const ")}
+            for n in g.calls():
+                if n["callee"]["name"] == "setValue" and "obj" in n:
+                    o = strip(g.obj(n))
+                    if is_call(o) and o["callee"]["name"] == "operator[]":
+                        lst = strip(g.obj(o))
+                        idx = strip(g.args(o)[0])
+                        if lst["k"] == "DeclRefExpr" and lst["decl"]["name"] in pmap and pmap[lst["decl"]["name"]]["k"] == "DeclRefExpr" and idx["k"] == "IntegerLiteral":
+                            shifts.append((c, pmap[lst["decl"]["name"]], idx["val"]))
+                if n["callee"]["name"] == "setParameters" and g.args(n):
+                    r = e1._root_decl(strip(g.args(n)[0]))
+                    if r and r[0] == "v" and r[2] in pmap:
+                        probes.append((c, r))
+        chk.floor("D2", "probe sites in " + cls, len(probes), 1)
+        # name locals perturbed: p[k].setValue(...) where p = parameters.createSubList(V)
+        shifted = {}      # name local -> first probe node
+        for n, lst, k in shifts:
+            if True:
+                if True:
+                    if True:
                         for asg, csl in _name_sources(f, lst["decl"]["id"], n, arg):
                             v = strip(f.args(csl)[0])
                             names = []
@@ -227,7 +294,7 @@ def _flag_guarded(f, cfg, covering, site):
     for n in walk(f.body):
         if n["k"] == "BinaryOperator" and n["op"] == "=":
             l = strip(kids(n)[0])
-            if l["k"] == "DeclRefExpr" and l["decl"]["ty"] == "bool" and render(kids(n)[1]) in ("true", "false"):
+            if l["k"] == "DeclRefExpr" and l["decl"]["ty"] in ("bool", "const bool") and render(kids(n)[1]) in ("true", "false"):
                 nm = l["decl"]["name"]
                 val = render(kids(n)[1]) == "true"
                 others = [m for m in walk(f.body) if m["k"] == "BinaryOperator" and m["op"] == "=" and strip(kids(m)[0])["k"] == "DeclRefExpr" and strip(kids(m)[0])["decl"]["id"] == l["decl"]["id"] and render(kids(m)[1]) != render(kids(n)[1])]
@@ -247,7 +314,7 @@ def _flag_guarded(f, cfg, covering, site):
             if s_ == sb or cfg.dominates(s_, sb):
                 for t, tr, nd in e1.edge_facts(cfg, a, s_):
                     nd2 = strip(nd)
-                    if nd2["k"] in ("DeclRefExpr", "MemberExpr") and nd2.get("ty") == "bool" and t not in wnames and t.split(".")[-1] not in wnames:
+                    if nd2["k"] in ("DeclRefExpr", "MemberExpr") and nd2.get("ty") in ("bool", "const bool") and t not in wnames and t.split(".")[-1] not in wnames:
                         # the fact must hold on every path into the dominated region: the other successor must not reach the site
                         other = [o for o in cfg.succ[a] if o != s_]
                         if all(not e1.path_exists(cfg, o, sb, avoid_blocks={a}) for o in other):
@@ -410,96 +477,109 @@ def _d5_d6(chk, fb):
                                                 witness={"history": "select {x,y,z}; update only {y}"})
                                 else:
                                     chk.proved("D6", f.key, "slot-index:" + arr, f.loc(n), "counter '%s' advances once per element of variables_" % k)
-        # D5
-        handlers = [n for n in walk(f.body) if n["k"] == "CXXCatchStmt" and "ConstraintException" in (n.get("caught") or "")]
-        first_section = []
-        for h in handlers:
-            rethrow = [x for x in walk(h) if x["k"] == "CXXThrowExpr"]
-            if rethrow:
-                continue       # cross-derivative section: documented conversion into an exception
-            first_section.append(h)
-        chk.floor("D5", "fallback handlers in " + cls, len(first_section), 1 if "Two" in cls else 2)
-        for h in first_section:
-            stepw = [x for x in walk(h) if x["k"] in ("BinaryOperator", "CompoundAssignOperator") and x["op"] in ("=", "/=", "*=") and render(kids(x)[0]) == "h"]
-            if stepw:
-                # retry handler: every step update flips the sign
-                bad = []
-                unsure = []
+        # D5: the handlers of updateDerivatives and of the probing helpers it calls
+        n_handlers = 0
+        for g in [f] + [t for _, t in _helpers(fb, f)]:
+            # the step: what the probes add to the value  (p[k].setValue(value + STEP))
+            steps = set()
+            for x in g.calls():
+                if x["callee"]["name"] == "setValue" and g.args(x):
+                    a_ = strip(g.args(x)[0])
+                    if a_["k"] == "BinaryOperator" and a_["op"] in ("+", "-"):
+                        r_ = strip(kids(a_)[1])
+                        if r_["k"] == "DeclRefExpr":
+                            steps.add(r_["decl"]["name"])
+            steps = steps or {"h"}
+            handlers = [n for n in walk(g.body) if n["k"] == "CXXCatchStmt" and "ConstraintException" in (n.get("caught") or "")]
+            first_section = []
+            for h in handlers:
+                rethrow = [x for x in walk(h) if x["k"] == "CXXThrowExpr"]
+                if rethrow:
+                    continue       # cross-derivative section: documented conversion into an exception
+                first_section.append(h)
+            n_handlers += len(first_section)
+            for h in first_section:
+                stepw = [x for x in walk(h) if x["k"] in ("BinaryOperator", "CompoundAssignOperator") and x["op"] in ("=", "/=", "*=") and render(kids(x)[0]) in steps]
+                if stepw:
+                    # retry handler: every step update flips the sign
+                    bad = []
+                    unsure = []
 
-                def flips(op, rhs):
-                    """True: the new step has the opposite sign; False: same sign; None: not recognised"""
-                    rhs = strip(rhs)
-                    if rhs["k"] == "ConditionalOperator" and op == "=":
-                        a_, b_ = flips("=", kids(rhs)[1]), flips("=", kids(rhs)[2])
-                        if a_ is True and b_ is True:
-                            return True
-                        if a_ is False or b_ is False:
-                            return False
+                    def flips(op, rhs, sv="h"):
+                        """True: the new step has the opposite sign; False: same sign; None: not recognised"""
+                        rhs = strip(rhs)
+                        if rhs["k"] == "ConditionalOperator" and op == "=":
+                            a_, b_ = flips("=", kids(rhs)[1], sv), flips("=", kids(rhs)[2], sv)
+                            if a_ is True and b_ is True:
+                                return True
+                            if a_ is False or b_ is False:
+                                return False
+                            return None
+                        lit = lambda z: z["k"] in ("IntegerLiteral", "FloatingLiteral") or (z["k"] == "UnaryOperator" and z.get("op") == "-" and strip(kids(z)[0])["k"] in ("IntegerLiteral", "FloatingLiteral"))
+                        val = lambda z: float(z["val"]) if z["k"] in ("IntegerLiteral", "FloatingLiteral") else -float(strip(kids(z)[0])["val"])
+                        if op == "=":
+                            t = render(rhs)
+                            if t in ("-" + sv, "(-" + sv + ")"):
+                                return True
+                            if rhs["k"] == "BinaryOperator" and rhs["op"] in ("/", "*"):
+                                l_, r_ = strip(kids(rhs)[0]), strip(kids(rhs)[1])
+                                if render(l_) == sv and lit(r_):
+                                    return val(r_) < 0
+                                if render(l_) in ("-" + sv, "(-" + sv + ")") and lit(r_):
+                                    return val(r_) > 0
+                            if t == sv:
+                                return False
+                            return None
+                        if op in ("/=", "*="):
+                            if lit(rhs):
+                                return val(rhs) < 0
+                            return None
                         return None
-                    lit = lambda z: z["k"] in ("IntegerLiteral", "FloatingLiteral") or (z["k"] == "UnaryOperator" and z.get("op") == "-" and strip(kids(z)[0])["k"] in ("IntegerLiteral", "FloatingLiteral"))
-                    val = lambda z: float(z["val"]) if z["k"] in ("IntegerLiteral", "FloatingLiteral") else -float(strip(kids(z)[0])["val"])
-                    if op == "=":
-                        t = render(rhs)
-                        if t in ("-h", "(-h)"):
-                            return True
-                        if rhs["k"] == "BinaryOperator" and rhs["op"] in ("/", "*"):
-                            l_, r_ = strip(kids(rhs)[0]), strip(kids(rhs)[1])
-                            if render(l_) == "h" and lit(r_):
-                                return val(r_) < 0
-                            if render(l_) in ("-h", "(-h)") and lit(r_):
-                                return val(r_) > 0
-                        if t == "h":
-                            return False
-                        return None
-                    if op in ("/=", "*="):
-                        if lit(rhs):
-                            return val(rhs) < 0
-                        return None
-                    return None
-                for x in stepw:
-                    fl = flips(x["op"], kids(x)[1])
-                    if fl is False:
-                        bad.append(x)
-                    elif fl is None:
-                        unsure.append(x)
-                # and a bounded number of tries
-                bounded = any(x["k"] == "BreakStmt" for x in walk(h))
-                if bad:
-                    chk.refuted("D5", f.key, "retry-flips-side", f.loc(bad[0]), "a retry after a constraint hit updates the step with '%s', which keeps probing on the same side: at a bound every retry fails and the derivatives come back NaN" % render(bad[0]),
-                                witness={"input": "a constrained variable on its bound"})
-                elif unsure:
-                    chk.unknown("D5", f.key, "retry-flips-side", f.loc(unsure[0]), "step update '%s' not in a recognised form" % render(unsure[0]))
-                elif not bounded:
-                    chk.refuted("D5", f.key, "retry-bounded", f.loc(h), "retry loop has no bound on the number of tries")
-                else:
-                    chk.proved("D5", f.key, "retry-flips-side", f.loc(h), "%d step updates, all sign-flipping; bounded by a break" % len(stepw))
-            else:
-                probes = [x for x in walk(h) if is_call(x) and x["callee"]["name"] == "setParameters"]
-                # probes made through a local lambda / helper that receives the abscissa
-                viahelper = [x for x in walk(h) if is_call(x) and x["callee"]["name"] in ("operator()",) and f.args(x) and strip(f.args(x)[0])["k"] == "BinaryOperator" and strip(f.args(x)[0])["op"] in ("+", "-")]
-                viahelper += [x for x in walk(h) if is_call(x) and x["callee"].get("inrepo") and x["callee"]["name"] not in ("setParameters", "setValue", "getValue") and f.args(x)
-                              and strip(f.args(x)[0])["k"] == "BinaryOperator" and strip(f.args(x)[0])["op"] in ("+", "-") and "double" in (strip(f.args(x)[0]).get("ty") or "")]
-                ders = [x for x in walk(h) if x["k"] == "BinaryOperator" and x["op"] == "=" and render(kids(x)[0]).startswith(("der1_[", "der2_["))]
-                if (probes or viahelper) and len(ders) >= 2:
-                    # one-sided: all probes of the handler on one side of the value
-                    signs = set()
-                    for x in walk(h):
-                        if is_call(x) and x["callee"]["name"] == "setValue":
-                            a = strip(f.args(x)[0])
-                            if a["k"] == "BinaryOperator" and a["op"] in ("+", "-"):
-                                signs.add(a["op"])
-                    for x in viahelper:
-                        signs.add(strip(f.args(x)[0])["op"])
-                    if len(signs) == 1:
-                        chk.proved("D5", f.key, "one-sided-formula", f.loc(h), "handler probes on the '%s' side only and assigns both derivatives" % list(signs)[0])
-                    elif len(signs) == 2:
-                        chk.refuted("D5", f.key, "one-sided-formula", f.loc(h), "the fallback handler probes on both sides of the point (%s): it can hit the same constraint again" % sorted(signs))
+                    for x in stepw:
+                        fl = flips(x["op"], kids(x)[1], render(kids(x)[0]))
+                        if fl is False:
+                            bad.append(x)
+                        elif fl is None:
+                            unsure.append(x)
+                    # and a bounded number of tries
+                    bounded = any(x["k"] == "BreakStmt" for x in walk(h))
+                    if bad:
+                        chk.refuted("D5", g.key, "retry-flips-side", g.loc(bad[0]), "a retry after a constraint hit updates the step with '%s', which keeps probing on the same side: at a bound every retry fails and the derivatives come back NaN" % render(bad[0]),
+                                    witness={"input": "a constrained variable on its bound"})
+                    elif unsure:
+                        chk.unknown("D5", g.key, "retry-flips-side", g.loc(unsure[0]), "step update '%s' not in a recognised form" % render(unsure[0]))
+                    elif not bounded:
+                        chk.refuted("D5", g.key, "retry-bounded", g.loc(h), "retry loop has no bound on the number of tries")
                     else:
-                        chk.unknown("D5", f.key, "one-sided-formula", f.loc(h), "probe abscissae of the handler not recognised")
-                elif not any(is_call(x) for x in walk(h)) and not ders:
-                    chk.refuted("D5", f.key, "one-sided-formula", f.loc(h), "the fallback handler neither retries nor computes one-sided derivatives: a constraint hit leaves the derivatives of this variable unset")
+                        chk.proved("D5", g.key, "retry-flips-side", g.loc(h), "%d step updates, all sign-flipping; bounded by a break" % len(stepw))
                 else:
-                    chk.unknown("D5", f.key, "one-sided-formula", f.loc(h), "fallback handler not in a recognised form")
+                    probes = [x for x in walk(h) if is_call(x) and x["callee"]["name"] == "setParameters"]
+                    # probes made through a local lambda / helper that receives the abscissa
+                    viahelper = [x for x in walk(h) if is_call(x) and x["callee"]["name"] in ("operator()",) and g.args(x) and strip(g.args(x)[0])["k"] == "BinaryOperator" and strip(g.args(x)[0])["op"] in ("+", "-")]
+                    viahelper += [x for x in walk(h) if is_call(x) and x["callee"].get("inrepo") and x["callee"]["name"] not in ("setParameters", "setValue", "getValue") and g.args(x)
+                                  and strip(g.args(x)[0])["k"] == "BinaryOperator" and strip(g.args(x)[0])["op"] in ("+", "-") and "double" in (strip(g.args(x)[0]).get("ty") or "")]
+                    ders = [x for x in walk(h) if x["k"] == "BinaryOperator" and x["op"] == "=" and render(kids(x)[0]).startswith(("der1_[", "der2_["))]
+                    if (probes or viahelper) and len(ders) >= 2:
+                        # one-sided: all probes of the handler on one side of the value
+                        signs = set()
+                        for x in walk(h):
+                            if is_call(x) and x["callee"]["name"] == "setValue":
+                                a = strip(g.args(x)[0])
+                                if a["k"] == "BinaryOperator" and a["op"] in ("+", "-"):
+                                    signs.add(a["op"])
+                        for x in viahelper:
+                            signs.add(strip(g.args(x)[0])["op"])
+                        if len(signs) == 1:
+                            chk.proved("D5", g.key, "one-sided-formula", g.loc(h), "handler probes on the '%s' side only and assigns both derivatives" % list(signs)[0])
+                        elif len(signs) == 2:
+                            chk.refuted("D5", g.key, "one-sided-formula", g.loc(h), "the fallback handler probes on both sides of the point (%s): it can hit the same constraint again" % sorted(signs))
+                        else:
+                            chk.unknown("D5", g.key, "one-sided-formula", g.loc(h), "probe abscissae of the handler not recognised")
+                    elif not any(is_call(x) for x in walk(h)) and not ders:
+                        chk.refuted("D5", g.key, "one-sided-formula", g.loc(h), "the fallback handler neither retries nor computes one-sided derivatives: a constraint hit leaves the derivatives of this variable unset")
+                    else:
+                        chk.unknown("D5", g.key, "one-sided-formula", g.loc(h), "fallback handler not in a recognised form")
+        chk.floor("D5", "fallback handlers in " + cls, n_handlers, 1 if "Two" in cls else 2)
         # probes of the first section inside a try
         for lp in [n for n in walk(f.body) if n["k"] == "ForStmt"]:
             if not any(render(kids(x)[0]).startswith("der1_[") for x in walk(lp) if x["k"] == "BinaryOperator" and x["op"] == "="):
